@@ -27,6 +27,64 @@ BODY_CALLS = {"writedir", "handlerwrite"}
 HEADER_PREFIXES = ("HTTP/", "Content-", "Last-Modified", "Server:", "Date:", "Location:")
 
 
+def _copy_by_evaluation(ctx, f, vfs):
+    """copyto() evaluated with a source that delivers scripted blocks: every block has to be written once, unchanged and
+    in order, and reading has to stop at the first empty read.  -> problems, or None when the code cannot be followed."""
+    from ..paths import Const
+
+    prog = ctx.prog
+    scripts = [[b"AAAA", b"BB\r\n\x00\xff", b" \t\n ", b"0123456789abcdef" * 4, b"\x00", b"C", b""], [b""], [b"only", b""]]
+    problems = []
+    for script in scripts:
+        holder = {}
+
+        def cv(call, target, st, _s=script):
+            fn = call.func
+            if isinstance(fn, ast.Attribute) and fn.attr in ("read", "read1") and not (dotted(fn.value) or "").startswith("self"):
+                i = st.facts.get("__reads", Const(0)).value
+                st.facts["__reads"] = Const(i + 1)
+                return Const(_s[i] if i < len(_s) else b"")
+            if isinstance(fn, ast.Attribute) and fn.attr == "write" and not (dotted(fn.value) or "").startswith("self"):
+                a = holder["w"].cur_args
+                prev = st.facts.get("__written")
+                prev = prev.value if prev is not None and prev.kind == "const" else ()
+                st.facts["__written"] = Const(prev + ((a[0].value if a and a[0].kind == "const" else None),))
+                return Const(None)
+            if (dotted(fn) or "").endswith("copyfileobj"):
+                st.facts["__reads"] = Const(len(_s))
+                st.facts["__written"] = Const(tuple(x for x in _s if x))
+                return Const(None)
+            return None
+
+        w = Walker(prog, ctx.resolver, call_value=cv, exact_loops=True, unroll=len(script) + 3,
+                   inline=lambda fn, t, d: d < 3 and (t.bound_cls is not None or fn.cls is None) and fn.name not in ("open", "getfspath"))
+        holder["w"] = w
+        try:
+            paths = w.run(f, vfs)
+        except Exception:
+            return None
+        outs = set()
+        for p in paths:
+            if p.kind == "raise":
+                return None
+            wr = p.state.facts.get("__written")
+            rd = p.state.facts.get("__reads")
+            wr = wr.value if wr is not None and wr.kind == "const" else ()
+            outs.add((wr, rd.value if rd is not None and rd.kind == "const" else None))
+        if len(outs) != 1:
+            return None
+        wr, rd = next(iter(outs))
+        if rd is None or any(x is None for x in wr):
+            return None
+        want = tuple(x for x in script[:-1])
+        first_empty = script.index(b"") + 1
+        if wr != want:
+            problems.append(f"a source delivering the blocks {script[:-1]!r} is sent as {list(wr)!r}: the bytes written are not the bytes of the file, once, in order")
+        if rd != first_empty:
+            problems.append(f"reading does not stop at the first empty read (it reads {rd} times for {len(script) - 1} blocks)")
+    return problems
+
+
 # ------------------------------------------------------------------- R04a
 def copy_loop_obligations(ctx, rep, rule):
     prog = ctx.prog
@@ -47,6 +105,12 @@ def copy_loop_obligations(ctx, rep, rule):
         mode = c.args[1] if len(c.args) > 1 else next((k.value for k in c.keywords if k.arg == "mode"), None)
         if not (isinstance(mode, ast.Constant) and mode.value == "rb"):
             problems.append("the source is not opened in binary mode ('rb')")
+    verdict = _copy_by_evaluation(ctx, f, vfs)
+    if verdict is not None:
+        problems.extend(verdict)
+        rep.add(rule, f"{f.qualname}: binary block copy", not problems, ctx.where(f), "; ".join(sorted(set(problems))), key=f"{rule}|{f.qualname}")
+        return
+
     def _read_loops(fn):
         return [n for n in ast.walk(fn.node) if isinstance(n, (ast.While, ast.For))
                 and any(isinstance(c, ast.Call) and isinstance(c.func, ast.Attribute) and c.func.attr in ("read", "read1", "readinto") for c in ast.walk(n))]
@@ -219,7 +283,7 @@ def length_obligations(ctx, rep, rule):
         return
     for P in prog.subclasses(gp):
         h = prog.resolve_method(P, "handle")
-        if h is None or (h.cls is not P and P is not gp):
+        if h is None or (not ctx.owns(P, h) and P is not gp):
             continue
         def _driver(fn, t, d):
             # helpers of handle() that carry part of the response logic (status line, menu/document decision)
@@ -437,7 +501,7 @@ def check(ctx, rep):
     else:
         for P in prog.subclasses(http):
             h = prog.resolve_method(P, "handle")
-            if h is None or (h.cls is not P and P is not http):
+            if h is None or (not ctx.owns(P, h) and P is not http):
                 continue
             rep.analysed(h.qualname)
 
@@ -498,7 +562,7 @@ def check(ctx, rep):
         # error replies: the same holds for what filenotfound() sends
         for P in prog.subclasses(http):
             fnf = prog.resolve_method(P, "filenotfound")
-            if fnf is None or (fnf.cls is not P and P is not http):
+            if fnf is None or (not ctx.owns(P, fnf) and P is not http):
                 continue
 
             def writes(method):
@@ -615,7 +679,7 @@ def advertised_type_obligations(ctx, rep, rule="R04d"):
     prog = ctx.prog
     for P in ctx.protocol_classes():
         h = prog.resolve_method(P, "handle")
-        if h is None or h.cls is not P:
+        if h is None or not ctx.owns(P, h):
             continue
         from ..facts import expand_ast as _xa2
 
